@@ -44,3 +44,92 @@ Proof.
 Qed.
 Lemma edited_wf16 kept rxns mols eds : wf16 (foldl apply_edit (mk_net kept rxns mols) eds).
 Proof. apply Inv_wf16, foldl_Inv; [apply apply_edit_Inv|apply mk_net_Inv]. Qed.
+
+(** * (round 5) everything the importers and the parser build satisfies the store invariant of C15 — from ANY graph and
+      ANY text, also when the call raises midway (the reactions stored before stay, consistently indexed) *)
+Lemma foldl_Inv_err {A} (f : net * option cerr → A → net * option cerr) (l : list A) :
+  (∀ acc x, Inv acc.1 → Inv (f acc x).1) → ∀ acc, Inv acc.1 → Inv (foldl f acc l).1.
+Proof. intros Hf. induction l as [|x l IH]; intros acc Hs; [done|]. cbn. apply IH. by apply Hf. Qed.
+
+Lemma set_mol_Inv s x m : Inv s → x ∈ species s → Inv (set_mol s x m).
+Proof.
+  intros HI Hx. pose proof (assign_mol_Inv s x m HI) as Ha. unfold assign_mol in Ha. by rewrite decide_True in Ha.
+Qed.
+
+Lemma add_from_str_Inv s line rule ps : Inv s → Inv (add_from_str s line rule ps).1.
+Proof.
+  intros HI. unfold add_from_str.
+  destruct (if ps && bool_decide (_ ∈ _) then _ else _) as [core rl].
+  destruct (split_arrow (strip core)) as [[lft rgt]|]; [|done].
+  destruct (from_chars lft) as [l|]; [|done]. destruct (from_chars rgt) as [r|]; [|done].
+  pose proof (add_Inv s l r (default "" rl) None HI) as Ha.
+  destruct (add s l r (default "" rl) None) as [[s' er] e]. done.
+Qed.
+
+Lemma parse_item_Inv s line ex dr ps pf : Inv s → Inv (parse_item s line ex dr ps pf).1.
+Proof.
+  intros HI. unfold parse_item. destruct ex as [r|].
+  - destruct (pf && ps); [destruct (bar_rule_search _)|]; by apply add_from_str_Inv.
+  - destruct ps; by apply add_from_str_Inv.
+Qed.
+Lemma parse_items_Inv s items dr ps pf : Inv s → Inv (parse_items s items dr ps pf).1.
+Proof.
+  intros HI. unfold parse_items. apply (foldl_Inv_err _ items); [|done].
+  intros [s0 [e|]] it Hs; [done|]. by apply parse_item_Inv.
+Qed.
+Lemma parse_rxns_Inv s lines dr ps pf : Inv s → Inv (parse_rxns s lines dr ps pf).1.
+Proof.
+  intros HI. unfold parse_rxns. apply (foldl_Inv_err _ lines); [|done].
+  intros [s0 [e|]] line Hs; [done|]. destruct ps; by apply add_from_str_Inv.
+Qed.
+
+Lemma import_rxn_Inv ifl G spn acc rnd : Inv acc.1 → Inv (import_rxn ifl G spn acc rnd).1.
+Proof.
+  intros HI. unfold import_rxn. destruct acc as [s [e|]]; [done|]. cbv zeta.
+  destruct (decide _); [done|]. destruct (bn_eid _) as [e|]; [|done].
+  match goal with |- context [add ?a ?b ?c ?d ?e] => pose proof (add_Inv a b c d e HI) as Ha; destruct (add a b c d e) as [[s' er] e'] end.
+  done.
+Qed.
+Lemma import_mols_Inv G spn s : Inv s → Inv (import_mols G spn s).
+Proof.
+  intros HI. unfold import_mols. apply foldl_Inv; [|done].
+  intros acc n Ha. destruct (b_nodes G !! n ≫= bn_mol) as [m|]; [|done].
+  destruct (decide _); [by apply set_mol_Inv|done].
+Qed.
+Lemma bipartite_import_Inv ifl G : Inv (bipartite_to_hypergraph ifl G).1.
+Proof.
+  unfold bipartite_to_hypergraph. destruct (classify ifl G) as [spn rxn_nodes].
+  pose proof (foldl_Inv_err (import_rxn ifl G spn) (merge_sort nid_le (elements rxn_nodes))
+                (λ acc x, import_rxn_Inv ifl G spn acc x) (empty_net, None) Inv_init) as Hf.
+  destruct (foldl _ _ _) as [s [e|]]; [done|]. cbn in *. destruct (i_mol ifl); [by apply import_mols_Inv|done].
+Qed.
+
+Lemma species_graph_import_Inv pick dr mol_attr G : Inv (species_graph_to_hypergraph pick dr mol_attr G).1.
+Proof.
+  unfold species_graph_to_hypergraph. destruct (species_graph_entries G) as [ents un].
+  destruct (un || _); [apply Inv_init|].
+  match goal with |- context [foldl ?f (empty_net, None) ?l] =>
+    assert (Inv (foldl f (empty_net, None) l).1) as Hf end.
+  { apply foldl_Inv_err; [|apply Inv_init]. intros [s [e|]] p Hs; [done|]. cbn in Hs.
+    match goal with |- context [add ?a ?b ?c ?d ?e] => pose proof (add_Inv a b c d e Hs) as Ha; destruct (add a b c d e) as [[s' er] e'] end.
+    done. }
+  destruct (foldl _ _ _) as [s [e|]]; [done|]. cbn in *. destruct mol_attr; [|done].
+  apply foldl_Inv; [|done]. intros acc xn Ha. destruct (sn_mol xn.2); [|done]. cbv zeta.
+  destruct (decide _); [by apply set_mol_Inv|done].
+Qed.
+
+Lemma rxns_to_hypergraph_Inv lines dr ps pf : Inv (rxns_to_hypergraph lines dr ps pf).1.
+Proof. apply parse_rxns_Inv, Inv_init. Qed.
+
+(** non-vacuity: a parse that raises at its third line keeps the two reactions stored before (the fourth line is never read);
+    an import of the untagged export of that network returns them again — all these networks satisfy [Inv] by the lemmas above *)
+Definition exi_parse : net * option cerr := rxns_to_hypergraph ["2A + B >> C | rule=R1"; "C >> A"; "no arrow here"; "D >> E"] "r" true false.
+Definition exi_graph : bgraph :=
+  BGraph ((λ nd, BNode (bn_bip nd) (bn_label nd) None (bn_mol nd) (bn_eid nd)) <$>
+          b_nodes (hypergraph_to_bipartite (BFlags (Some "S:") (Some "R:") 0 1 true true true false true true) exi_parse.1))
+         (b_arcs (hypergraph_to_bipartite (BFlags (Some "S:") (Some "R:") 0 1 true true true false true true) exi_parse.1)).
+Example ex_built_inv_nonvacuous :
+  exi_parse.2 = Some EValue ∧ size (edges exi_parse.1) = 2%nat ∧ size (species exi_parse.1) = 3%nat ∧
+  (bipartite_to_hypergraph (IFlags "S:" "R:" "zz" true) exi_graph).2 = None ∧
+  size (edges (bipartite_to_hypergraph (IFlags "S:" "R:" "zz" true) exi_graph).1) = 2%nat.
+Proof. split_and!; by vm_compute. Qed.
